@@ -653,8 +653,8 @@ pub fn c06(ctx: &Ctx, rep: &mut Report) {
         }
     }
     // generated programs with hostile strings
-    let n = ctx.share(20_000, 1_000_000);
-    let n_cli = ctx.share(900, 40_000);
+    let n = ctx.share(60_000, 1_500_000);
+    let n_cli = ctx.share(2_000, 60_000);
     let cli_every = (n / n_cli).max(1);
     for i in 0..n {
         if i % 64 == 0 && ctx.out_of_time() && i > n / 10 {
